@@ -539,3 +539,80 @@ def run(ctx, fb, prog, spec):
     run_bip341(ctx, fb, prog, spec, X)
     run_helpers(ctx, fb, prog, spec, X)
     run_sighash(ctx, fb, prog, spec, X)
+
+
+# ---------------------------------------------------------------------------------------------------------------- R02.8
+def concrete_eval(t, env):
+    """value of a term under env = {term: int}; None when it mentions something else"""
+    if t in env:
+        return env[t]
+    if not isinstance(t, tuple):
+        return None
+    h = t[0]
+    if h == "c":
+        return t[1] if isinstance(t[1], int) else None
+    if h == "lin":
+        acc = t[1]
+        for (x, k) in t[2]:
+            v = concrete_eval(x, env)
+            if v is None:
+                return None
+            acc += k * v
+        return acc
+    if h == "eq":
+        a, b = concrete_eval(t[1], env), concrete_eval(t[2], env)
+        return None if a is None or b is None else int(a == b)
+    if h == "not":
+        a = concrete_eval(t[1], env)
+        return None if a is None else int(not a)
+    if h == "ap" and t[1] in ("<", "&", "|", "^") and len(t) == 4:
+        a, b = concrete_eval(t[2], env), concrete_eval(t[3], env)
+        if a is None or b is None:
+            return None
+        return {"<": int(a < b), "&": a & b, "|": a | b, "^": a ^ b}[t[1]]
+    return None
+
+
+def pubkey_predicate_table(fb, prog, func, sizes=(0, 1, 32, 33, 34, 64, 65, 66)):
+    """{(size, first byte): True/False} of a bool predicate over a byte vector parameter, by G-SYM evaluation with every
+    condition decided from the concrete (size, first byte); helpers in pubkey.h are inlined"""
+    V = ("a", "key")
+    table = {}
+    for size in sizes:
+        for b0 in (range(256) if size > 0 else (0,)):
+            env = {("ap", "m:size", V): size, ("ap", "m:empty", V): int(size == 0)}
+            if size > 0:
+                env[("ap", "[]", V, symx.C(0))] = b0
+                env[("ap", "m:at", V, symx.C(0))] = b0
+                env[("ap", "m:front", V)] = b0
+
+            def assume(term, conds, env=env):
+                v = concrete_eval(term, env)
+                return None if v is None else bool(v)
+            X = symx.Explorer(prog, assume=assume, inline=lambda fn, n: fn.file in ("pubkey.h", func.file) and fn.id != func.id, transparent=lambda n: True)
+            outs = X.explore(func, params={func.params[0]["n"]: V}, limit=64)
+            rets = set()
+            for o in outs:
+                r = concrete_eval(o.ret, env) if o.ret is not None else None
+                rets.add(r)
+            if len(rets) != 1 or None in rets:
+                raise AnalysisBroken("R02.8: %s is not decided by (size, first byte) at (%d, 0x%02x): %s" % (func.name, size, b0, [symx.show(o.ret) for o in outs][:3]))
+            table[(size, b0)] = bool(rets.pop())
+    return table
+
+
+def run_pubkey_encoding(ctx, fb, prog):
+    ctx.rule("R02.8", "public-key encoding predicates of STRICTENC / WITNESS_PUBKEYTYPE accept exactly (33 bytes, 02|03) [and (65 bytes, 04)] - tabulated over sizes x first byte")
+    specs = {"IsCompressedOrUncompressedPubKey": lambda s, b: (s == 33 and b in (2, 3)) or (s == 65 and b == 4),
+             "IsCompressedPubKey": lambda s, b: s == 33 and b in (2, 3)}
+    for name, spec in sorted(specs.items()):
+        f = fb.fn(name, file="script/interpreter.cpp")
+        try:
+            tab = pubkey_predicate_table(fb, prog, f)
+        except symx.Unsupported as e:
+            raise AnalysisBroken("R02.8: %s: %s" % (name, e))
+        ctx.site(len(tab))
+        diff = sorted(k for k, v in tab.items() if v != bool(spec(*k)))
+        ctx.inst(not diff, "R02.8", "pubkey-encoding:" + name, f.loc(), "%s agrees with the rule on all %d (size, first byte) pairs" % (name, len(tab)),
+                 "%s %s a %d-byte key starting 0x%02x (%d of %d pairs differ from the rule): hybrid / wrongly sized keys must fail the encoding check" %
+                 ((name, "accepts" if tab[diff[0]] else "rejects", diff[0][0], diff[0][1], len(diff), len(tab)) if diff else (name, "", 0, 0, 0, 0)))
